@@ -134,6 +134,14 @@ public:
 
     int world() const { return world_; }
 
+    // When set, the P ranks are the second half of a world of 2P processes: on VF_COMM_GROUP they have ranks
+    // 0..P-1 and size P, on MPI_COMM_WORLD ranks P..2P-1 and size 2P.  Code that asks the wrong communicator for
+    // its rank or size then sees different numbers.  Collectives are only possible on the group.
+    bool subgroup = false;
+    int rank_on(MPI_Comm comm) const { return (subgroup && comm == MPI_COMM_WORLD) ? rank_ + world_ : rank_; }
+    int size_on(MPI_Comm comm) const { return (subgroup && comm == MPI_COMM_WORLD) ? 2 * world_ : world_; }
+    MPI_Comm comm() const { return subgroup ? VF_COMM_GROUP : MPI_COMM_WORLD; }
+
     struct step
     {
         bool finished = false;       // all ranks returned
@@ -244,8 +252,10 @@ public:
     // --- called by the shim functions ---
     int rank() const { return rank_; }
 
-    int allreduce(void const* sendbuf, void* recvbuf, int count, int datatype, int op)
+    int allreduce(void const* sendbuf, void* recvbuf, int count, int datatype, int op, MPI_Comm on = 0)
     {
+        if (subgroup && on == MPI_COMM_WORLD)
+            throw collective_mismatch{"collective on MPI_COMM_WORLD although the integrator was given a sub-communicator (the other half of the world never joins it: hang)"};
         collective_sig sig;
         sig.count = count; sig.datatype = datatype; sig.op = op;
         std::size_t const n = std::size_t(count) * mpi_type_size(datatype);
@@ -323,27 +333,27 @@ inline std::vector<bytes> all_reductions(std::vector<bytes> const& contrib, coll
 
 // ---- the shim functions --------------------------------------------------------------------------
 
-inline int MPI_Comm_rank(MPI_Comm, int* rank)
+inline int MPI_Comm_rank(MPI_Comm comm, int* rank)
 {
-    *rank = vf::current_env() ? vf::current_env()->rank() : 0;
+    *rank = vf::current_env() ? vf::current_env()->rank_on(comm) : 0;
     return 0;
 }
 
-inline int MPI_Comm_size(MPI_Comm, int* size)
+inline int MPI_Comm_size(MPI_Comm comm, int* size)
 {
-    *size = vf::current_env() ? vf::current_env()->world() : 1;
+    *size = vf::current_env() ? vf::current_env()->size_on(comm) : 1;
     return 0;
 }
 
 inline int MPI_Allreduce(void const* sendbuf, void* recvbuf, int count, MPI_Datatype datatype, MPI_Op op,
-    MPI_Comm)
+    MPI_Comm comm)
 {
     if (!vf::current_env())
     {
         if (sendbuf != MPI_IN_PLACE) std::memcpy(recvbuf, sendbuf, std::size_t(count) * vf::mpi_type_size(datatype));
         return 0;
     }
-    return vf::current_env()->allreduce(sendbuf, recvbuf, count, datatype, op);
+    return vf::current_env()->allreduce(sendbuf, recvbuf, count, datatype, op, comm);
 }
 
 inline int MPI_Barrier(MPI_Comm) { return 0; }
